@@ -1,9 +1,74 @@
-(* C12 — Close and Disconnect end the client from any state, for good (sequential part; interleavings: SyncProofs, added when proved).
-   Property theorems only; the statements are those of the named lemmas (printed by Check),
-   each for ALL client states and ALL environment scripts unless it says otherwise. *)
-From MQ Require Import Session Outbound OutboundRefine ConnectProofs ClassProofs.
+(* C12 — Close and Disconnect end the client from any state, promptly and for good. L3 theorems hold for EVERY event sequence the monitor Sync.v accepts that is faithful (one ReadSlices goroutine; it observes the context monotonically; done closed once per connect) — for any number of goroutines of every kind and any schedule; recorded traces of the real client are checked to be accepted and faithful on every run. Sequential theorems: all client states, all scripts.
+   Property theorems only; the statements are those of the named lemmas (printed by Check). *)
+From MQ Require Import Session Outbound OutboundRefine ConnectProofs ClassProofs Sync SyncProofs.
 
-(* Disconnect: nil (DISCONNECT written completely, then the connection closed), ErrClosed, ErrDown or ErrSubmit *)
+(* no send on a closed channel and no double close, for any number of concurrent Close/Disconnect callers, publishers, persisted publishers and the read routine, in any interleaving *)
+Theorem c12_no_chan_panic : ltac:(let t := type of no_chan_panic_tr in exact t).
+Proof. exact no_chan_panic_tr. Qed.
+Check c12_no_chan_panic.
+Print Assumptions c12_no_chan_panic.
+
+(* once closed, connection control and the write semaphore stay closed *)
+Theorem c12_closed_for_good : ltac:(let t := type of closed_for_good in exact t).
+Proof. exact closed_for_good. Qed.
+Check c12_closed_for_good.
+Print Assumptions c12_closed_for_good.
+
+(* connSem closed implies writeSem closed implies the context canceled *)
+Theorem c12_closed_implies : ltac:(let t := type of closed_implies in exact t).
+Proof. exact closed_implies. Qed.
+Check c12_closed_implies.
+Print Assumptions c12_closed_implies.
+
+(* after the close every receive on connSem reports closed: Close returns nil, Disconnect and connect ErrClosed *)
+Theorem c12_after_close_connsem : ltac:(let t := type of recv_conn_after_close in exact t).
+Proof. exact recv_conn_after_close. Qed.
+Check c12_after_close_connsem.
+Print Assumptions c12_after_close_connsem.
+
+(* ... and every request gets ErrClosed from the write semaphore *)
+Theorem c12_after_close_writesem : ltac:(let t := type of recv_write_after_close in exact t).
+Proof. exact recv_write_after_close. Qed.
+Check c12_after_close_writesem.
+Print Assumptions c12_after_close_writesem.
+
+(* a blocked Close/Disconnect waits for a token held by exactly one other goroutine, and no wait-for chain leads back *)
+Theorem c12_close_does_not_wait_on_itself : ltac:(let t := type of close_does_not_wait_on_itself in exact t).
+Proof. exact close_does_not_wait_on_itself. Qed.
+Check c12_close_does_not_wait_on_itself.
+Print Assumptions c12_close_does_not_wait_on_itself.
+
+(* the wait-for graph over the four semaphores is acyclic in every state (lock order connSem < seqSem1 < seqSem2 < writeSem) *)
+Theorem c12_wait_for_acyclic : ltac:(let t := type of wait_for_acyclic in exact t).
+Proof. exact wait_for_acyclic. Qed.
+Check c12_wait_for_acyclic.
+Print Assumptions c12_wait_for_acyclic.
+
+(* every step of the write-token holder releases or closes the token or gets strictly closer to it (at most 7 of its own steps) *)
+Theorem c12_write_holder_progress : ltac:(let t := type of w_holder_step in exact t).
+Proof. exact w_holder_step. Qed.
+Check c12_write_holder_progress.
+Print Assumptions c12_write_holder_progress.
+
+(* and the holder always has an enabled step *)
+Theorem c12_write_holder_enabled : ltac:(let t := type of w_holder_enabled in exact t).
+Proof. exact w_holder_enabled. Qed.
+Check c12_write_holder_enabled.
+Print Assumptions c12_write_holder_enabled.
+
+(* without the context check after taking connSem (pinned tree, F20) the monitor reaches a send on a closed sequence semaphore *)
+Theorem c12_f20_pinned_refuted : ltac:(let t := type of f20_pinned_refuted in exact t).
+Proof. exact f20_pinned_refuted. Qed.
+Check c12_f20_pinned_refuted.
+Print Assumptions c12_f20_pinned_refuted.
+
+(* Close during the handshake (the F6 schedule): accepted, faithful, no panic *)
+Example c12_f6_nonvacuous : ltac:(let t := type of f6_close_during_handshake in exact t).
+Proof. exact f6_close_during_handshake. Qed.
+(* ReadSlices re-entered after termCallbacks (the F20 schedule): accepted, faithful, no panic *)
+Example c12_f20_nonvacuous : ltac:(let t := type of f20_reenter_after_term in exact t).
+Proof. exact f20_reenter_after_term. Qed.
+(* Disconnect (sequential): nil with DISCONNECT written completely and the connection closed, ErrClosed, ErrDown or ErrSubmit *)
 Theorem c12_disconnect_outcomes : ltac:(let t := type of op_disconnect_classes in exact t).
 Proof. exact op_disconnect_classes. Qed.
 Check c12_disconnect_outcomes.
@@ -15,21 +80,9 @@ Proof. exact op_disconnect_not_submitted. Qed.
 Check c12_disconnect_not_submitted.
 Print Assumptions c12_disconnect_not_submitted.
 
-(* with the write semaphore closed every request returns ErrClosed with the world untouched *)
-Theorem c12_closed_requests : ltac:(let t := type of req_outcome_classes in exact t).
-Proof. exact req_outcome_classes. Qed.
-Check c12_closed_requests.
-Print Assumptions c12_closed_requests.
-
-(* every result of every operation in every state is one of the model's error values (no panic value) *)
+(* every result of every operation in every state is one of the model's error values *)
 Theorem c12_errs_in_model : ltac:(let t := type of step_errs_in_model in exact t).
 Proof. exact step_errs_in_model. Qed.
 Check c12_errs_in_model.
 Print Assumptions c12_errs_in_model.
-
-(* connection control is never re-opened by any operation *)
-Theorem c12_csem_monotone : ltac:(let t := type of step_csem_monotone in exact t).
-Proof. exact step_csem_monotone. Qed.
-Check c12_csem_monotone.
-Print Assumptions c12_csem_monotone.
 
